@@ -398,6 +398,49 @@ def _bool_kernel(test, al, atoms):
     raise Unsupported("_reopen_if_needed: unknown test atom " + ast.unparse(test))
 
 
+def _terminate_tests(f):
+    """the guards of the four top-level `if`s of `_terminate_file` (and of the retention `if` inside the third one) as
+    Bool kernels over named atoms; the same-path test and the compression test stay pinned by shape"""
+    al = Alpha(_local_names(f), {"is_rotating", "old_path", "new_path", "creation_time", "root", "ext",
+                                 "renamed_path", "logs"})
+    atoms = [("rotating", _ref("is_rotating")[0].value),
+             ("hasRot", _ref("self._rotation_function is not None")[0].value),
+             ("(!hasRot)", _ref("self._rotation_function is None")[0].value),
+             ("hasFile", _ref("self._file is not None")[0].value),
+             ("(!hasFile)", _ref("self._file is None")[0].value),
+             ("hasRet", _ref("self._retention_function is not None")[0].value),
+             ("(!hasRet)", _ref("self._retention_function is None")[0].value)]
+    ifs = [s for s in f.body if isinstance(s, ast.If)]
+    if len(ifs) != 4 or any(s.orelse for s in ifs):
+        raise Unsupported("_terminate_file: expected four top-level ifs without else, got %d" % len(ifs))
+
+    def kernel(test, allowed):
+        k = _bool_kernel(test, al, atoms)
+        import re as _re
+        used = set(_re.findall(r"[A-Za-z]+", k))
+        if not used <= set(allowed):
+            raise Unsupported("_terminate_file: test %s mentions %s" % (ast.unparse(test), sorted(used - set(allowed))))
+        return k
+
+    inner = [s for s in ifs[2].body if isinstance(s, ast.If)]
+    if len(inner) != 2 or any(s.orelse for s in inner):
+        raise Unsupported("_terminate_file: compression / retention ifs")
+    comp = _ref("self._compression_function is not None and old_path is not None")[0].value
+    if not al.eq(inner[0].test, comp):
+        raise Unsupported("_terminate_file: compression test changed: " + ast.unparse(inner[0].test))
+    same = [s for s in ifs[1].body if isinstance(s, ast.If)]
+    if len(same) != 1 or same[0].orelse or not (al.eq(same[0].test, _ref("new_path == old_path")[0].value)
+                                                or al.eq(same[0].test, _ref("old_path == new_path")[0].value)):
+        raise Unsupported("_terminate_file: same-path test changed")
+    out = "/-- guards of `_terminate_file`, translated from the source -/\n"
+    out += "def termCloseTest (hasFile : Bool) : Bool := %s\n" % kernel(ifs[0].test, ["hasFile"])
+    out += "def termPrepTest (rotating : Bool) : Bool := %s\n" % kernel(ifs[1].test, ["rotating"])
+    out += "def termFinishTest (rotating hasRot : Bool) : Bool := %s\n" % kernel(ifs[2].test, ["rotating", "hasRot"])
+    out += "def termRetainTest (hasRet : Bool) : Bool := %s\n" % kernel(inner[1].test, ["hasRet"])
+    out += "def termRecreateTest (rotating : Bool) : Bool := %s\n" % kernel(ifs[3].test, ["rotating"])
+    return out
+
+
 def _reopen_shape(cls, tree):
     """`_reopen_if_needed`: guard, stat with the FileNotFoundError handler, the re-open test (as a Bool kernel over
     missing / dev differs / ino differs) and the ORDER of the re-open branch; `_create_file` records (dev, ino)"""
@@ -447,6 +490,39 @@ def _reopen_shape(cls, tree):
     out += "def reopenOrder : List RStep := [%s]\n" % ", ".join("RStep." + k for k in order)
     out += "/-- `_create_file` records `os.fstat(fileno)[ST_DEV/ST_INO]` when `watch` is set -/\n"
     out += "def createRecordsIdentity : Bool := true\n"
+    return out
+
+
+def _reporter_shape():
+    """`ErrorInterceptor.print` (the catch mechanism every failed file operation is reported through) is PER CALL: no
+    method of the class other than `__init__` stores to an attribute of `self` (no state survives from one report to
+    the next, nothing is shared between threads), and the only early return of `print` is the `sys.stderr` guard"""
+    tree, _ = parse_module("_error_interceptor.py")
+    cls = find_class(tree, "ErrorInterceptor")
+    for fn in cls.body:
+        if not isinstance(fn, ast.FunctionDef) or fn.name == "__init__":
+            continue
+        for node in ast.walk(fn):
+            if isinstance(node, (ast.Global, ast.Nonlocal)):
+                raise Unsupported("ErrorInterceptor.%s: global/nonlocal state" % fn.name)
+            if isinstance(node, ast.Attribute) and isinstance(node.ctx, (ast.Store, ast.Del)) \
+                    and isinstance(node.value, ast.Name) and node.value.id == "self":
+                raise Unsupported("ErrorInterceptor.%s keeps state across calls: self.%s is assigned"
+                                  % (fn.name, node.attr))
+    pr = find_func(cls, "print")
+    stmts = [s_ for s_ in pr.body if not (isinstance(s_, ast.Expr) and isinstance(s_.value, ast.Constant))]
+    returns = [n for n in ast.walk(pr) if isinstance(n, ast.Return)]
+    guard = stmts[0] if stmts else None
+    ok_guard = (isinstance(guard, ast.If) and ast.unparse(guard.test) in ("not sys.stderr", "sys.stderr is None")
+                and len(guard.body) == 1 and isinstance(guard.body[0], ast.Return) and guard.body[0].value is None
+                and not guard.orelse)
+    if not ok_guard or len(returns) != 1:
+        raise Unsupported("ErrorInterceptor.print: early returns other than the sys.stderr guard: %r"
+                          % [ast.unparse(r) for r in returns])
+    out = "\n/-- `ErrorInterceptor`: no method but `__init__` assigns an attribute of `self` (reports are per call) -/\n"
+    out += "def reporterStateless : Bool := true\n"
+    out += "/-- early returns of `ErrorInterceptor.print` (the `sys.stderr` guard only) -/\n"
+    out += "def reporterEarlyReturns : Nat := 1\n"
     return out
 
 
@@ -645,10 +721,7 @@ def generate():
                 "self._retention_function", "self._create_file", "set_ctime"]
         if calls != want:
             raise Unsupported("_terminate_file call order changed: %r" % calls)
-        tests = [ast.unparse(s.test) for s in f.body if isinstance(s, ast.If)]
-        if tests != ["self._file is not None", "is_rotating", "is_rotating or self._rotation_function is None",
-                     "is_rotating"]:
-            raise Unsupported("_terminate_file tests changed: %r" % tests)
+        body += _terminate_tests(f)
         body += "def terminateOrder : List TStep := [TStep.close, TStep.newPath, TStep.mkdirs, TStep.sameNameRename, " \
                 "TStep.compression, TStep.retention, TStep.createFile]\n\n"
         f = norm_func(find_func(cls, "write"), cls, tree)
@@ -660,7 +733,8 @@ def generate():
         body += "def writeOrder : List WStep := [WStep.lazyCreate, WStep.reopen, WStep.rotationTest, WStep.terminate, WStep.writeMessage]\n"
         body += _reopen_shape(cls, tree)
         body += _stop_shape(cls, tree)
+        body += _reporter_shape()
     except (Unsupported, SyntaxError, KeyError, AttributeError, IndexError) as e:
         errors.append("%s: %s" % (type(e).__name__, e))
     body += "\nend FileSink.Gen\n"
-    return emit("FileSink", body, ["loguru/_file_sink.py"], errors)
+    return emit("FileSink", body, ["loguru/_file_sink.py", "loguru/_error_interceptor.py"], errors)
